@@ -4,7 +4,11 @@ import (
 	"encoding/base64"
 	"encoding/json"
 	"fmt"
+	"io"
+	"net/http"
+	"net/http/httptest"
 	"strconv"
+	"sync"
 
 	"github.com/mimiro-io/datahub/internal/jobs"
 	"github.com/mimiro-io/datahub/internal/server"
@@ -37,6 +41,22 @@ var xfCode = map[string]string{
 		return r; }`,
 }
 
+var (
+	echoOnce sync.Once
+	echoSrv  *httptest.Server
+)
+
+func echoService() string {
+	echoOnce.Do(func() {
+		echoSrv = httptest.NewServer(http.HandlerFunc(func(w http.ResponseWriter, r *http.Request) {
+			body, _ := io.ReadAll(r.Body)
+			w.Header().Set("Content-Type", "application/json")
+			_, _ = w.Write(body)
+		}))
+	})
+	return echoSrv.URL
+}
+
 func (s *Session) jobID(ji int) string { return fmt.Sprintf("job%d-%s", ji, s.Tag) }
 
 // jobConfig renders job definition ji (1-based) as a real job configuration.
@@ -53,6 +73,11 @@ func (s *Session) jobConfig(ji int) *jobs.JobConfiguration {
 		cfg.Source = map[string]interface{}{"Type": "UnionDatasetSource", "DatasetSources": members}
 	}
 	cfg.Sink = map[string]interface{}{"Type": "DatasetSink", "Name": s.DsReal(d.Sink)}
+	if d.Xf == "http" || d.Xf == "httpctx" {
+		// an external transform service that answers with what it was sent (with and without the namespace context
+		// as first element): abstractly the identity
+		cfg.Transform = map[string]interface{}{"Type": "HttpTransform", "Url": echoService(), "SupportContext": d.Xf == "httpctx"}
+	}
 	if code, ok := xfCode[d.Xf]; ok {
 		par := d.Par
 		if par < 1 {
